@@ -125,6 +125,11 @@ Fixpoint sp_actions (t : spec) (acts : list action) (outs : list outcome) : spec
   | _, _ => t
   end.
 
+Definition no_abort (t : spec) : bool :=
+  match t_abort t with None => true | Some _ => false end.
+Definition abort_outcome (t : spec) : outcome :=
+  match t_abort t with None => OOk | Some k => ORaised k end.
+
 Definition head_ok (g : gid) (order : list gid) : bool :=
   match order with
   | x :: _ => (x =? g) || negb (memz g order)
@@ -135,12 +140,29 @@ Definition enter (t : spec) (g : gid) (k : Z) : spec :=
   mkSp (t_st t) (aset g (k + 1) (t_pc t)) (t_val t) (t_fin t) (remz g (t_order t))
        (t_norder t) (remz g (t_due t)) (t_ran t) (t_ghost t) (t_woke t) (t_risky t) (Some g) (t_abort t) (ok08 t) (ok09 t) (okwf t).
 
+(* a body raised: the frame is abandoned.  Those that have not run keep their
+   turn for the next frame, after those that ran (same relative order as
+   before); nobody is owed a step any more in this frame; a killed coroutine
+   that was to be dropped in this frame is dropped in the next one. *)
+Definition gh_next (x : gid * ghost) : gid * ghost :=
+  match x with (g, ZNow) => (g, ZNext) | _ => x end.
+Definition abandon (k : Z) (t : spec) : spec :=
+  mkSp (t_st t) (t_pc t) (t_val t) (t_fin t) [] (t_norder t ++ t_order t) [] (t_ran t)
+       (map gh_next (t_ghost t)) (t_woke t) (t_risky t) None (Some k)
+       (ok08 t) (ok09 t) (okwf t).
+
 Definition sp_result (t : spec) (g : gid) (res : result) : spec :=
   let ran := g :: t_ran t in
   match res with
   | RReturn v =>
       mkSp (adel g (t_st t)) (t_pc t) (aset g v (t_val t)) (g :: t_fin t) (t_order t)
            (t_norder t) (t_due t) ran (adel g (t_ghost t)) (t_woke t) (t_risky t) None (t_abort t) (ok08 t) (ok09 t) (okwf t)
+  | RRaise k =>
+      (* TERMINATED; the promise keeps its value (None); released at once *)
+      abandon k
+        (mkSp (adel g (t_st t)) (t_pc t) (t_val t) (g :: t_fin t) (t_order t)
+              (t_norder t) (t_due t) ran (adel g (t_ghost t)) (t_woke t) (t_risky t) None
+              (t_abort t) (ok08 t) (ok09 t) (okwf t))
   | RYield y =>
       match is_pos y with
       | Some z =>
@@ -160,9 +182,11 @@ Definition sp_result (t : spec) (g : gid) (res : result) : spec :=
 (* one entry of the execution log: the body of g ran from script position k *)
 Definition sp_exec (sc : scripts) (t : spec) (e : entry) : spec :=
   let '(g, k, outs) := e in
-  (* C08: only a runnable coroutine runs, once per frame, and those that
-     stayed runnable come in their previous order *)
-  let t := flag08 (is_act t g && negb (memz g (t_ran t)) && head_ok g (t_order t)) t in
+  (* C08: only a runnable coroutine runs, once per frame, those that stayed
+     runnable come in their previous order, and nobody runs in a frame after a
+     body raised *)
+  let t := flag08 (is_act t g && negb (memz g (t_ran t)) && head_ok g (t_order t)
+                   && no_abort t) t in
   (* C09: its code runs only while it is ACTIVE (never after kill or return,
      unless started again), and it carries on from where it stopped *)
   let t := flag09 (is_act t g && (k =? zget (t_pc t) g)) t in
@@ -210,7 +234,8 @@ Definition gh_stays (x : gid * ghost) : bool :=
 
 Definition frame_end (t : spec) (exc : outcome) : spec :=
   let t := flag08 (match t_due t with [] => true | _ => false end) t in
-  let t := flag09 (is_ok exc) t in     (* process never fails *)
+  (* process never fails, except by passing on what left a coroutine body *)
+  let t := flag09 (outcome_eqb exc (abort_outcome t)) t in
   (* input domain: see [sp_action] *)
   let t := flagwf (forallb (fun u => memz u (t_ran t)) (t_risky t)) t in
   mkSp (t_st t) (t_pc t) (t_val t) (t_fin t) (t_order t) (t_norder t) (t_due t) (t_ran t)
@@ -245,7 +270,10 @@ Definition final (c : case) : spec := sp_run (c_scripts c) sp0 (c_trace c).
 
 (* ---- input domain -------------------------------------------------------- *)
 Definition ends_with_return (s : list stp) : bool :=
-  match last s ([], RYield YNone) with (_, RReturn _) => true | _ => false end.
+  match last s ([], RYield YNone) with
+  | (_, RReturn _) | (_, RRaise _) => true
+  | _ => false
+  end.
 
 Definition wf_b (c : case) : bool :=
   forallb (fun x => (0 <=? fst x) && ends_with_return (snd x)) (c_scripts c)
